@@ -25,8 +25,8 @@ Nothing is assumed about Byzantine keys, keys outside the committee, or messages
 
 **Ghost history.** Besides `sys`, the global state records for every validator the list `hist` of all durable
 states it has ever written (`Effect.persist`), in order. It is a history variable in the sense of Abadi–Lamport:
-no transition reads it (`GStep.sysStep` / `GStep.lift`: erasing it gives exactly the transitions of `SysStep`, and
-every `SysStep` run can be decorated with it), it only lets the abstraction to Layer P remember a commit vote that
+no transition reads it (`GStep.sysStep`: erasing it gives a transition of `SysStep`; `GStep.hist_irrelevant`:
+whether and how the system can step does not depend on it), it only lets the abstraction to Layer P remember a commit vote that
 became durable, never left the node (crash between `set_state` and the broadcast) and was later overwritten by the
 vote of a higher view. Without it the abstraction "recorded = sent or currently durable" is not monotone and the
 refinement is false — see `Props/C01r.lean`, section "Why the history variable".
